@@ -271,7 +271,9 @@ SPEC = dict(
          "digest of everything readable at the final stage compared bit for bit with a fresh State (keys "
          "matter.history.<Type>.<order>.bits_equal, floor matter.history.coverage_floor); 41 operators taking a const State x 3 "
          "cases: realize(Acceleration), call the operator with random arguments, digest without re-realizing vs fresh State (keys "
-         "matter.history.constop.<Operator>.bits_equal, floor matter.history.constop.coverage_floor); then n random cases from "
+         "matter.history.constop.<Operator>.bits_equal, floor matter.history.constop.coverage_floor); 21 constraint subjects (every "
+         "built-in constraint type, contact constraints with and without rolling) x the same 8 order classes (keys "
+         "matter.history.constraint.<Type>.<order>.bits_equal, floor matter.history.constraint.coverage_floor); then n random cases from "
          "VERIF_SEED, one in six a random palette tree with a random matter history, about half plain (1-3 Pin/Slider bodies, 1-2 elements of a subject force type with state parameters + "
          "background elements + Custom probes (position, velocity, position+time, own state parameter) + optional Force::Gravity; "
          "8-25 operations), one in three rich (Pin/Slider/Ball/Free bodies, 1-2 constraints, locks, Euler/quaternion option, event "
@@ -290,7 +292,7 @@ SPEC = dict(
             "flags, locks, Euler/quaternion option, one q,u,t event witness, composite/articulated inertias (the model sees locks / "
             "constraint flags / the Euler option only as 'an Instance- / Model-stage variable changed'). (iii) not covered: contact "
             "elements (HuntCrossley, ElasticFoundation, SmoothSphereHalfSpace are table rows only), witnesses of library event "
-            "handlers, non-conforming user-written elements; the link between the C16 and C18 models is an executed cross-check "
+            "handlers, non-conforming user-written elements, State-level parameter setters of constraints and Custom constraints; the link between the C16 and C18 models is an executed cross-check "
             "(the driver runs the matter entries on the C18 State model too and flags any disagreement in stage or validity on "
             "every generated history), not a theorem; exact comparison of calcForce call counts / getNumEvaluations is performance "
             "behaviour (a harmless caching refactor shows up as a correspondence mismatch)",
